@@ -282,10 +282,31 @@ func vC16Doc(people int) (*gedcom.Document, string) {
 			text += "1 CHIL @I" + string(rune('1'+i)) + "@\n"
 		}
 	}
+	if people >= 3 {
+		// more families, so that lists of families have a prefix, a suffix and a middle
+		text += "0 @F2@ FAM\n1 HUSB @I3@\n0 @F3@ FAM\n1 WIFE @I3@\n"
+	}
 	text += "0 TRLR\n"
 	d, err := gedcom.NewDocumentFromString(text)
 	VsAssume(err == nil)
 	return d, text
+}
+
+func vC16FamilyPointers(fs gedcom.FamilyNodes) []string {
+	out := []string{}
+	for _, f := range fs {
+		out = append(out, f.Pointer())
+	}
+	return out
+}
+
+// vC16Views: what the Go API shows of the document (a query must not change it).
+func vC16Views(d *gedcom.Document) string {
+	s := d.String() + "|"
+	for _, i := range d.Individuals() {
+		s += i.Pointer() + ","
+	}
+	return s + "|" + strings.Join(vC16FamilyPointers(d.Families()), ",")
 }
 
 func vC16Min(a, b int) int {
@@ -429,6 +450,19 @@ var vC16Cases = []vC16Case{
 		out = append(out, all...)
 		return out
 	}},
+	{"Combine(.Families | First(%n), .Families) | .Pointer", func(d *gedcom.Document, n int, lit string) interface{} {
+		all := vC16FamilyPointers(d.Families())
+		return append(append([]string{}, all[:vC16Min(n, len(all))]...), all...)
+	}},
+	{"Fams are .Families; Combine(Fams | Last(%n), Fams | First(1)) | .Pointer", func(d *gedcom.Document, n int, lit string) interface{} {
+		all := vC16FamilyPointers(d.Families())
+		out := append([]string{}, all[len(all)-vC16Min(n, len(all)):]...)
+		return append(out, all[:vC16Min(1, len(all))]...)
+	}},
+	{".Families | Last(%n) | .Pointer", func(d *gedcom.Document, n int, lit string) interface{} {
+		all := vC16FamilyPointers(d.Families())
+		return all[len(all)-vC16Min(n, len(all)):]
+	}},
 	{".Individuals | NodesWithTagPath(\"BIRT\", \"DATE\")", func(d *gedcom.Document, n int, lit string) interface{} {
 		out := gedcom.Nodes{}
 		for _, i := range d.Individuals() {
@@ -488,7 +522,9 @@ func VerifC16_Functions(cs int) {
 	}
 	query := vC16Fill(c.query, n, lit)
 	want := vQJSON(c.ref(d, n, lit))
+	before := vC16Views(d)
 	got, ok := vQEval(query, []*gedcom.Document{d})
+	VsAssert("query-leaves-the-document-as-it-was", vC16Views(d) == before)
 	VsObserve(query)
 	VsObserve(got)
 	VsObserve(want)
